@@ -601,8 +601,15 @@ def h_r1(p: Project, rep: Report):
                 inner = [a_ for a_ in list(e_.args) + [k_.value for k_ in e_.keywords] if f"{src}.read(" in text(a_) or ".decode(" in text(a_)]
                 if inner:
                     rewritten = (text(e_.func), _PT.simple_conds(q.conds))
+            # ... nor cut short: a slice of the decoded text with an UPPER bound (`message[: message.find("</OFX>") + 6]`)
+            # drops whatever follows - stray text that has to be refused, or the rest of a document in which an
+            # unknown aggregate happens to embed the same end tag
+            if isinstance(e_, ast.Subscript) and isinstance(e_.slice, ast.Slice) and e_.slice.upper is not None and (".decode(" in text(e_.value) or f"{src}.read(" in text(e_.value)):
+                up_ = e_.slice.upper
+                if not (isinstance(up_, ast.Call) and text(up_.func) == "len"):
+                    rewritten = (f"a slice ending at {text(up_)[:40]}", _PT.simple_conds(q.conds))
         if nret:
-            rep.check("H-R1", "parse_header:body-not-rewritten", rewritten is None, f"the decoded body is passed through {rewritten[0]}(...) before it is returned (taken when {rewritten[1]}): the parser is handed text that is not what the file holds" if rewritten else "", hloc(p, fn0))
+            rep.check("H-R1", "parse_header:body-not-rewritten", rewritten is None, f"the decoded body is passed through {rewritten[0]} before it is returned (taken when {rewritten[1]}): the parser is handed text that is not what the file holds" if rewritten else "", hloc(p, fn0))
         for q in ppl:
             if q.outcome != "return" or not any(i in q.nodes for i in v1parse):
                 continue
@@ -890,3 +897,29 @@ def b_r9_quote_backrefs(p: Project, rep: Report):
     walk(list(r.tree))
     if n == 0:
         rep.note("B-R9 undecided: XML_REGEX has no back-references")
+
+
+def b_r14_header_text_built_on_every_call(p: Project, rep: Report):
+    """str(header) says what the header's fields are NOW"""
+    from .flat import flat
+    from .fresh import kept_from_earlier_call
+
+    rep.rule("B-R14", "the header text is built from the fields on every call: no returning path of __str__ (base class and both header classes, helpers inlined) hands back a string the object kept from an earlier call - make_header() formats the header once for its debug log, so a text kept from then would not show a field (UID, SECURITY) assigned afterwards, and parsing the generated text would give other fields than the object's")
+    n = 0
+    for clsname in ("OFXHeaderBase", "OFXHeaderV1", "OFXHeaderV2"):
+        cd = p.module(HEADER).classdef(clsname)
+        if cd is None:
+            continue
+        ci = p.classinfo(HEADER, cd)
+        fn0 = ci.own_func("__str__")
+        if fn0 is None:
+            continue
+        n += 1
+        try:
+            kept = kept_from_earlier_call(p, HEADER, flat(p, HEADER, fn0, ci))
+        except AnalysisError as e:
+            rep.note(f"B-R14 undecided: {clsname}.__str__ ({e})")
+            continue
+        rep.check("B-R14", f"{clsname}.__str__:built-on-every-call", kept is None, f"a path returns {kept[:50] if kept else ''}: the text of an earlier call - a field assigned since then is not in it" if kept else "", hloc(p, fn0))
+    if n == 0:
+        rep.note("B-R14 undecided: no __str__ found on the header classes")
